@@ -516,13 +516,131 @@ func parseSetDefaults(c *core.Ctx) *defaultsInfo {
 		if fd == nil {
 			return nil
 		}
+		// local pointers to sub-structs (`api := &c.API`): name -> path it stands for
+		alias := map[string]string{}
+		resolve := func(e ast.Expr) string {
+			if u, ok := e.(*ast.UnaryExpr); ok && u.Op == token.AND {
+				e = u.X
+			}
+			if pe, ok := e.(*ast.ParenExpr); ok {
+				e = pe.X
+			}
+			sp := selPath(e)
+			if sp == "" {
+				return ""
+			}
+			root := sp
+			rest := ""
+			if i := strings.Index(sp, "."); i >= 0 {
+				root, rest = sp[:i], sp[i:]
+			}
+			for k := 0; k < 4; k++ {
+				a, ok := alias[root]
+				if !ok {
+					break
+				}
+				sp = a + rest
+				root, rest = sp, ""
+				if i := strings.Index(sp, "."); i >= 0 {
+					root, rest = sp[:i], sp[i:]
+				}
+			}
+			return sp
+		}
+		// setter helpers: func f(field *T, def T) { if *field == <nil|zero> { *field = <&def|def> } }
+		setterKind := func(name string) string {
+			fdecl := findFunc(pk, "", name)
+			if fdecl == nil || fdecl.Type.Params == nil || len(fdecl.Type.Params.List) < 1 || len(fdecl.Type.Params.List[0].Names) == 0 {
+				return ""
+			}
+			first := fdecl.Type.Params.List[0].Names[0].Name
+			var ifs *ast.IfStmt
+			for _, st := range fdecl.Body.List {
+				switch x := st.(type) {
+				case *ast.IfStmt:
+					ifs = x
+				case *ast.DeclStmt:
+				default:
+					return ""
+				}
+			}
+			if ifs == nil || ifs.Else != nil || len(ifs.Body.List) != 1 {
+				return ""
+			}
+			be, ok := ifs.Cond.(*ast.BinaryExpr)
+			if !ok || be.Op != token.EQL {
+				return ""
+			}
+			star, ok := be.X.(*ast.StarExpr)
+			if !ok || selPath(star.X) != first {
+				return ""
+			}
+			as, ok := ifs.Body.List[0].(*ast.AssignStmt)
+			if !ok || len(as.Lhs) != 1 {
+				return ""
+			}
+			ls, ok := as.Lhs[0].(*ast.StarExpr)
+			if !ok || selPath(ls.X) != first {
+				return ""
+			}
+			if selPath(be.Y) == "nil" {
+				return "nil"
+			}
+			return "zero"
+		}
 		var walk func(stmts []ast.Stmt, guards []ast.Expr, top bool)
 		walk = func(stmts []ast.Stmt, guards []ast.Expr, top bool) {
 			for _, st := range stmts {
 				switch x := st.(type) {
+				case *ast.ExprStmt:
+					call, ok := x.X.(*ast.CallExpr)
+					if !ok || len(call.Args) != 2 {
+						continue
+					}
+					var fname string
+					switch f := call.Fun.(type) {
+					case *ast.Ident:
+						fname = f.Name
+					case *ast.IndexExpr:
+						if id, ok := f.X.(*ast.Ident); ok {
+							fname = id.Name
+						}
+					}
+					kind := setterKind(fname)
+					if kind == "" {
+						continue
+					}
+					if _, isAddr := call.Args[0].(*ast.UnaryExpr); !isAddr {
+						continue
+					}
+					p := dropRoot(resolve(call.Args[0]))
+					if p == "" {
+						continue
+					}
+					di.pos[p] = x.Pos()
+					if v := constOf(pk, call.Args[1]); v != nil {
+						di.def[p] = v
+					}
+					if top && kind == "nil" {
+						di.topLevel[p] = true
+					}
+					if kind == "nil" {
+						di.boolHelper = true
+					}
 				case *ast.AssignStmt:
+					// a local pointer to a sub-struct
+					if x.Tok == token.DEFINE && len(x.Lhs) == 1 && len(x.Rhs) == 1 {
+						if id, ok := x.Lhs[0].(*ast.Ident); ok {
+							if u, ok := x.Rhs[0].(*ast.UnaryExpr); ok && u.Op == token.AND {
+								if rp := resolve(u.X); rp != "" {
+									alias[id.Name] = rp
+									continue
+								}
+							}
+						}
+					}
 					for i, l := range x.Lhs {
-						p := dropRoot(selPath(l))
+						p := dropRoot(resolve(l))
 						if p == "" || i >= len(x.Rhs) {
 							continue
 						}
@@ -530,7 +648,7 @@ func parseSetDefaults(c *core.Ctx) *defaultsInfo {
 						rhs := x.Rhs[i]
 						if call, ok := rhs.(*ast.CallExpr); ok {
 							if id, ok := call.Fun.(*ast.Ident); ok && id.Name == "boolDefault" && len(call.Args) == 2 {
-								ap := dropRoot(selPath(call.Args[0]))
+								ap := dropRoot(resolve(call.Args[0]))
 								if ap != p {
 									di.unguarded = append(di.unguarded, fmt.Sprintf("%s = boolDefault(%s, …): the default of another setting is applied", p, ap))
 								}
@@ -547,7 +665,7 @@ func parseSetDefaults(c *core.Ctx) *defaultsInfo {
 						guarded := false
 						for _, g := range guards {
 							if be, ok := g.(*ast.BinaryExpr); ok {
-								if dropRoot(selPath(be.X)) == p {
+								if dropRoot(resolve(be.X)) == p {
 									if v := constOf(pk, be.Y); v != nil && (v.String() == "0" || v.String() == `""`) {
 										switch be.Op {
 										case token.EQL, token.LEQ, token.LSS:
@@ -798,6 +916,30 @@ func runFlags(c *core.Ctx) {
 						if sub, ok := kv.Value.(*ast.CompositeLit); ok {
 							walk(sub, p)
 							continue
+						}
+						// a local variable that was initialised with a composite literal (the sub-struct built beforehand)
+						if id, ok := kv.Value.(*ast.Ident); ok {
+							if v, ok := pk.TypesInfo.Uses[id].(*types.Var); ok && !v.IsField() && v.Parent() != pk.Types.Scope() {
+								var lit *ast.CompositeLit
+								nAssign := 0
+								ast.Inspect(fd.Body, func(w ast.Node) bool {
+									if as, ok := w.(*ast.AssignStmt); ok {
+										for i, l := range as.Lhs {
+											if lid, ok := l.(*ast.Ident); ok && pk.TypesInfo.ObjectOf(lid) == v && i < len(as.Rhs) {
+												nAssign++
+												if cl, ok := as.Rhs[i].(*ast.CompositeLit); ok {
+													lit = cl
+												}
+											}
+										}
+									}
+									return true
+								})
+								if lit != nil && nAssign == 1 {
+									walk(lit, p)
+									continue
+								}
+							}
 						}
 						// leaf: every opts.<F> mentioned in the value; local variables are followed one step
 						var collect func(e ast.Node, depth int)
